@@ -101,9 +101,11 @@ def judge(status, skel, recs, verdict, pub="-", compare_words=True):
     for k, r in enumerate(recs.split("|")):
         f = r.split("@")
         if compare_words and len(f) >= 4 and f[2] != f[3]:
-            vw, ww = f[2].split(","), f[3].split(",")
-            # WASM may hold extra trailing zero words (storage grown on demand): compare the VM's extent
-            if vw != ww[:len(vw)] or any(x not in ("0", ".") for x in ww[len(vw):]):
+            vw, ww = ([] if x == "." else x.split(",") for x in (f[2], f[3]))
+            # the WASM storage grows on demand (cells of an arm never taken are not there yet), the VM's is sized from the
+            # layout: the storages are equal when the common extent is and the rest of the longer one is zero
+            k2 = min(len(vw), len(ww))
+            if vw[:k2] != ww[:k2] or any(x not in ("0", ".") for x in vw[k2:] + ww[k2:]):
                 return f"state-words-differ at sample {k}: vm={f[2][:200]} wasm={f[3][:200]}", None
     return None, verdict
 
@@ -112,7 +114,7 @@ def main(ctx, args):
     ctx.assumptions += [
         "hook runtime::vm::verif (cfg mimium_verif) records (kind, cursor, size) at GetState/SetState/Mem/Delay and asserts pos+size <= storage length",
         "Model/Layout.lean states what a published layout means for run-time accesses; only accesses to the global (dsp) storage are judged, closure storages are counted but not judged",
-        "generator keeps stateful constructs out of `if` arms (known findings F3/F4)",
+        "stateful constructs occur inside `if` arms (finding F3 repaired): a call touches the cells outside arms and those of the arms taken; programs without state in arms (class noStatefulInArms, decided by drv_c05 from the S-expression) are judged by the strict checker `conforms`, the others by `conformsSel` (in-order sub-selection, self first/last)",
         "Model/Publish.lean is a hand port of how mirgen's eval_expr accumulates state_skeleton; its dsp skeleton (publishedSk (publishFn P dsp)) is compared with get_dsp_state_skeleton of the real compiler for every generated program",
     ]
     known = load_known("C05")
@@ -124,7 +126,10 @@ def main(ctx, args):
     if not build_harness(ctx):
         ctx.finish()
     times = 12 if ctx.tier == "quick" else 48
-    plan = [("core", 700), ("deep", 300), ("scalar", 400), ("scalar_deep", 300)] if ctx.tier == "quick" else [("core", 8000), ("deep", 3000), ("scalar", 4000), ("scalar_deep", 3000)]
+    # the streams "f3" / "f2" were layout-only while findings F3 (state inside `if` arms) and F2 (several delay sizes) were
+    # open; both are repaired, they are ordinary run streams now
+    plan = ([("core", 700), ("deep", 300), ("scalar", 400), ("scalar_deep", 300), ("f3", 400), ("f2", 100)] if ctx.tier == "quick"
+            else [("core", 8000), ("deep", 3000), ("scalar", 4000), ("scalar_deep", 3000), ("f3", 4000), ("f2", 1000)])
     if args.replay:
         r = json.load(open(args.replay))
         allcases = [{"id": "replay", "src": r["src"], "sx": r.get("sx"), "inputs": r.get("inputs", []), "times": r.get("times", 8)}]
@@ -135,14 +140,7 @@ def main(ctx, args):
             off += n
             allcases += cs
     res = run_c05(allcases)
-    # layout-only stream (compiled, not run: times = 0): the streams aimed AT findings F3 (state inside `if` arms) and F2
-    # (several delay sizes), where the run-time accesses are known to be wrong but what mirgen PUBLISHES is still modelled
-    lo_cases = []
-    if not args.replay:
-        for prof, n in ([("f3", 400), ("f2", 100)] if ctx.tier == "quick" else [("f3", 4000), ("f2", 1000)]):
-            cs, _ = pc.gen_cases(ctx.seed, n, prof, 0, start=0)
-            lo_cases += cs
-    lo_res = run_c05(lo_cases) if lo_cases else {}
+    lo_cases, lo_res = [], {}      # (no layout-only stream any more)
     failures, stats, nontriv, samples = [], collections.Counter(), set(), []
     layout_diffs, layout_samples, layout_nontriv = [], [], set()
 
@@ -188,6 +186,11 @@ def main(ctx, args):
             if info:
                 n_acc = int(info.split(" ")[2])
                 stats["accesses_judged"] += n_acc
+                kv = dict(x.split("=") for x in info.split(" ")[3:] if "=" in x)
+                stats["programs_judged_" + kv.get("mode", "?")] += 1
+                if kv.get("mode") == "sel":
+                    stats["accesses_skipped_by_untaken_arms"] += int(kv.get("skipped", 0))
+                    stats["programs_sel_with_skipped_access"] += int(kv.get("skipped", 0)) > 0
                 if n_acc > 0 and skel not in ("F[]", "-"):
                     nontriv.add(hash(c["src"]))
                     stats["layouts_" + ("nested" if skel.count("F[") > 1 else "flat")] += 1
@@ -223,15 +226,14 @@ def main(ctx, args):
             rep["src"] = rep["shrunk"]["src"]
         ctx.violation(f"run-time state accesses do not match the published layout ({why[:300]}) on {len(failures)} programs; smallest:\n{rep['src']}", rep)
     if layout_diffs:
-        # a disagreement between the Lean model of mirgen and the real mirgen: classify by the class predicates of the
-        # listed findings (F3: a cell with state published for an `if` arm, clsz=0; F2/G2 concern accesses/words, not the layout),
-        # everything else is reported as it is
+        # a disagreement between the Lean model of mirgen and the real mirgen: grouped by the class predicate
+        # (a cell with state published for an `if` arm, clsz=0 — the class of the repaired finding F3 — vs. the rest)
         layout_diffs.sort(key=lambda f: len(f[0]["src"]))
         in_f3 = [d for d in layout_diffs if d[3].get("clsz", 1) == 0]
         other = [d for d in layout_diffs if d[3].get("clsz", 1) != 0]
         stats["layout_diffs_in_class_F3"] = len(in_f3)
         stats["layout_diffs_other"] = len(other)
-        for group, label in ((other, "outside every listed class"), (in_f3, "state inside `if` arms (class of F3)")):
+        for group, label in ((other, "outside every listed class"), (in_f3, "state inside `if` arms (class of the repaired F3)")):
             if not group:
                 continue
             c, skel, pub, pi = group[0]
@@ -252,15 +254,19 @@ def main(ctx, args):
     ctx.coverage.update({
         "evaluations": stats["evaluations"],
         "distinct_nontrivial": len(nontriv),
-        "rule": "generated programs with stateful call trees (nested calls, tuple/scalar self, mem, delay) run %d samples; per dsp call the recorded VM accesses are judged by the Lean checker `conforms` against the published dsp layout, the cursor must be 0, and VM/WASM flat state words must be equal; non-trivial = at least one state access and a non-empty layout" % times,
+        "rule": "generated programs with stateful call trees (nested calls, tuple/scalar self, mem, delay) run %d samples; per dsp call the recorded VM accesses are judged by the Lean checker against the published dsp layout (`conforms`: every cell, for programs without state inside `if` arms; `conformsSel`: in-order sub-selection with self first/last, for the others), the cursor must be 0, and VM/WASM flat state words must be equal; non-trivial = at least one state access and a non-empty layout" % times,
         "samples": samples or [{"note": "replay mode"}],
         "traces_validated_against_impl": stats["evaluations"],
         "state_accesses_judged": stats["accesses_judged"],
         "layouts_nested": stats["layouts_nested"], "layouts_flat": stats["layouts_flat"],
         "failures": len(failures),
+        "programs_judged_strict(no state in arms)": stats["programs_judged_strict"],
+        "programs_judged_selected(state in arms)": stats["programs_judged_sel"],
+        "of_which_with_a_skipped_access": stats["programs_sel_with_skipped_access"],
+        "accesses_skipped_by_untaken_arms": stats["accesses_skipped_by_untaken_arms"],
         "published_layout_model_vs_compiler": {
             "rule": "publishedSk (publishFn P dsp) of Model/Publish.lean, computed from the program's S-expression, equals get_dsp_state_skeleton of the real compiler (text equality of the skeleton); non-trivial = at least 2 cells",
-            "compared": stats["layouts_compared"], "of_which_layout_only_stream_f3_f2": stats["layout_only_programs"],
+            "compared": stats["layouts_compared"],
             "distinct_with_ge2_cells": len(layout_nontriv),
             "outside_class_state_in_arms": stats["layout_outside_class_state_in_arms"], "agree": stats["layouts_agree"], "disagree": len(layout_diffs),
             "with_ge2_cells": stats["layout_ge2_cells"], "with_nested_children": stats["layout_nested"],
